@@ -9,7 +9,7 @@ CORR_MODULES = ["Sched.DeadlineCorr"]
 PREFIX = "C30"
 CASE_TYPE = "C30_case"
 HARNESS = "timing"
-KNOWN = {1: "C30-reader-no-rearm"}
+KNOWN = {}
 RULE = ("one case = one whole-stack simulation scenario drawn from one PRNG: one participant with 1-2 deadline writers "
         "and one deadline reader on the same topic (recording listeners), writes of 1-3 instances, deliveries, clock "
         "advances around multiples of the periods; distinct = distinct scenario line; non-trivial = at least one "
@@ -18,13 +18,14 @@ TRUSTED = ["theories/Sched/WorkerModel.v (hand transcription of check_missed_rea
            "check_missed_writer_deadline / the time_until_* functions and the worker loop), "
            "theories/Sched/DeadlineModel.v (per-instance tick rules in ns)",
            "harness/src/bin/timing.rs (simulated timer rounds a delay of 0 up to 1 ns; recording listeners)"]
-ASSUMPTIONS = ["writer theorem: the worker runs at least once per deadline period (true by C31 outside C31-negative-sleep; "
-               "the worker also arms a timer for the exact deadline)",
-               "reader side: claimed only outside the recorded class C30-reader-no-rearm (the overdue wakes hit every "
-               "elapsed period exactly once); on the real code the count grows at every worker iteration",
+ASSUMPTIONS = ["count = elapsed periods: the worker runs at least once per deadline period (true by C31; the worker also "
+               "arms a timer for the exact deadline of every writer and reader instance); for arbitrary iteration times the "
+               "counts never exceed the elapsed periods",
                "DataReaderAsync::get_requested_deadline_missed_status is todo!() on this tree: the reader count is "
                "observed through the listener and the status condition",
-               "the oracle allows the miss of a period that elapsed within the last 50 ms to be still unreported"]
+               "the oracle allows the miss of a period that elapsed within the last 50 ms to be still unreported",
+               "the harness rounds a requested timer delay of 0 up to 1 ns (the simulated clock stands still while the "
+               "worker runs; at an exact deadline boundary the real worker asks for delay(0) until the clock moves)"]
 
 DLS = [50 * MS, 100 * MS, 120 * MS, 250 * MS, 33 * MS, NS, 70 * MS]
 ANNS = [200, 1000, 5000]
@@ -92,7 +93,8 @@ def gen(r, tier):
 def corpus():
     D = 100 * MS
     return [
-        # D20: one sample, then 330 ms of silence with a 100 ms reader deadline: 7 reports instead of 3
+        # regression (fixed C30-reader-no-rearm): one sample, then 330 ms of silence with a 100 ms reader
+        # deadline: 3 reports (it used to be 7)
         (1000, (("W", D), ("R", D), ("net",), ("w", 0, 1), ("net",), ("adv", 330 * MS), ("net",), ("odm", 0), ("scr",))),
         # samples keep arriving within the period: no miss on either side
         (1000, (("W", D), ("R", D), ("net",), ("w", 0, 1), ("net",), ("adv", 90 * MS), ("w", 0, 1), ("net",),
@@ -217,18 +219,17 @@ def distribution(cases, outs):
 
 
 MANIFEST = {
-    "text": ("Machine-checked proof (Coq) over the per-instance tick rules of check_missed_writer_deadline (re-arms by one "
-             "period) and check_missed_reader_deadline (never re-arms), for all sample-time and wake-time sequences: the "
-             "writer count after any silence equals the number of elapsed periods when the worker runs at least once per "
-             "period (and never exceeds it otherwise); no miss on either side while samples keep arriving within the "
-             "period; every increase appends exactly one signal carrying the running total. The reader count equals the "
-             "number of overdue wakes; it equals the number of elapsed periods exactly when the wakes hit each period once, "
-             "and a witness shows it is wrong otherwise (recorded finding C30-reader-no-rearm). Tied to the code by "
-             "whole-stack simulation: listener calls of writers and readers, status reads, status-condition triggers and "
-             "all timer delays are compared with the model in Coq; the once-per-period oracle is applied to the real counts."),
+    "text": ("Machine-checked proof (Coq) over the per-instance tick rules of check_missed_writer_deadline and "
+             "check_missed_reader_deadline (both re-arm by one period), for all sample-time and wake-time sequences: the "
+             "offered and the requested count after any silence equal the number of elapsed periods when the worker runs at "
+             "least once per period, and never exceed it for arbitrary iteration times; no miss on either side while "
+             "samples keep arriving within the period; every increase appends exactly one signal carrying the running "
+             "total; the rules in nanoseconds are the ones of the (sec, nanosec) worker model away from the i32 clamp. "
+             "Tied to the code by whole-stack simulation: listener calls of writers and readers, status reads, "
+             "status-condition triggers and all timer delays are compared with the model in Coq; the once-per-period "
+             "oracle is applied to the real counts. The scenario of the fixed finding C30-reader-no-rearm is kept as a "
+             "regression case."),
     "note": ("Trusted: Coq kernel + vm_compute; hand models WorkerModel.v / DeadlineModel.v (checked by the correspondence "
-             "run); harness timing.rs and comparator. Axioms: none. Known finding C30-reader-no-rearm: on the real code "
-             "the requested-deadline-missed count grows at every worker iteration (~20/s and once per API call) after the "
-             "first miss, and periods shorter than 50 ms are under-counted."),
+             "run); harness timing.rs and comparator. Axioms: none."),
     "technique": "Coq proof (induction over event sequences, invariants, nia) + whole-stack deterministic simulation compared in Coq",
 }
